@@ -425,7 +425,7 @@ def loadTimeSeriesData(
     dataList = [row.split(",") for row in data.splitlines() if row != ""]
 
     # The new praat script includes a header
-    if dataList[0][0] == "time":
+    if len(dataList) > 0 and dataList[0][0] == "time":
         dataList = dataList[1:]
 
     newDataList = []
